@@ -95,7 +95,13 @@ pub fn draw_swarm(rng: &mut Rng) -> Swarm {
 
 /// (utc secs, nanos, offset) of the run's initial clock.
 pub fn draw_start(rng: &mut Rng) -> (i64, u32, i32) {
-    let offset = *rng.pick(&OFFSETS);
+    // a third of the runs start in the process time zone, where unhooked clock
+    // reads (chrono::Local over clock_gettime) are comparable with hooked ones
+    let offset = if rng.chance(1, 3) {
+        crate::clock::process_offset()
+    } else {
+        *rng.pick(&OFFSETS)
+    };
     let nanos = match rng.below(4) {
         0 => 0,
         1 => 999_999_999,
